@@ -365,4 +365,108 @@ theorem findBlockScalarEnd_eq (lvl : Level) (buf : List Byte) (start m : Nat) :
   · rfl
 
 
+
+/-! ### classify_yaml_chars -/
+
+theorem movemask_cmpeq (c : Byte) (chunk : List Byte) :
+    movemask (chunk.map (cmpeq c)) = boolMask (chunk.map (· == c)) := by
+  induction chunk with
+  | nil => rfl
+  | cons x xs ih => rw [List.map_cons, List.map_cons, movemask_cons, boolMask, cmpeq_msb, ih]
+
+theorem classifyChunk_eq (W : Nat) (hasCr : Bool) (buf : List Byte) (offset : Nat) :
+    classifyChunk W hasCr buf offset = classSpec hasCr buf offset W := by
+  unfold classifyChunk classSpec classMask chunkAt
+  simp only [movemask_cmpeq]
+
+theorem classifyYamlChars_eq (avx2 hasCr : Bool) (buf : List Byte) (offset : Nat) :
+    classifyYamlChars avx2 hasCr buf offset =
+      if offset + 16 > buf.length then none
+      else some (classSpec hasCr buf offset (if offset + 32 ≤ buf.length ∧ avx2 = true then 32 else 16)) := by
+  unfold classifyYamlChars
+  by_cases h16 : offset + 16 > buf.length
+  · rw [if_pos h16, if_pos h16]
+  · rw [if_neg h16, if_neg h16]
+    by_cases h32 : offset + 32 ≤ buf.length ∧ avx2 = true
+    · rw [if_pos h32, if_pos h32, classifyChunk_eq]
+    · rw [if_neg h32, if_neg h32, if_pos (by omega), classifyChunk_eq]
+
+theorem mod_double (b x p : Nat) (hb : b < 2) (hp : 0 < p) :
+    (b + 2 * x) % (p * 2) = b + 2 * (x % p) := by
+  have hx : p * (x / p) + x % p = x := Nat.div_add_mod x p
+  have hr := Nat.mod_lt x hp
+  generalize x / p = q at hx
+  generalize x % p = r at hx hr
+  subst hx
+  have h1 : b + 2 * (p * q + r) = (b + 2 * r) + (p * 2) * q := by
+    rw [Nat.mul_add, Nat.mul_assoc p 2 q, Nat.mul_left_comm p 2 q]; omega
+  rw [h1, Nat.add_mul_mod_self_left, Nat.mod_eq_of_lt (by omega)]
+
+theorem boolMask_take (bs : List Bool) : ∀ n, boolMask (bs.take n) = boolMask bs % 2 ^ n := by
+  induction bs with
+  | nil => intro n; simp [boolMask, Nat.zero_mod]
+  | cons b bs ih =>
+    intro n
+    cases n with
+    | zero => simp [boolMask, Nat.mod_one]
+    | succ n =>
+      rw [List.take_succ_cons, boolMask, boolMask, ih n, Nat.pow_succ]
+      have hp : 0 < 2 ^ n := Nat.pow_pos (by decide)
+      rw [mod_double _ _ _ (by split <;> omega) hp]
+
+/-- The SSE2 classification is the low 16 bits of the AVX2 classification of the same offset. -/
+theorem classMask_low16 (c : Byte) (buf : List Byte) (offset : Nat) :
+    boolMask (classMask c buf offset 32) % 2 ^ 16 = boolMask (classMask c buf offset 16) := by
+  rw [← boolMask_take]
+  unfold classMask
+  rw [← List.map_take, List.take_take]
+  rfl
+
+/-! ### SUCCINCTLY_SIMD clamp -/
+
+theorem parseSimdClamp_true_iff (v : List Char) :
+    parseSimdClamp v = some true ↔ normalise v ∈ clampSpellings := by
+  unfold parseSimdClamp clampSpellings
+  simp only [List.mem_cons, List.not_mem_nil, or_false]
+  generalize normalise v = n
+  constructor
+  · intro h
+    split at h
+    · assumption
+    · split at h <;> simp at h
+  · intro h; rw [if_pos h]
+
+theorem parseSimdClamp_false_iff (v : List Char) :
+    parseSimdClamp v = some false ↔ normalise v ∈ noClampSpellings := by
+  unfold parseSimdClamp noClampSpellings
+  simp only [List.mem_cons, List.not_mem_nil, or_false]
+  generalize normalise v = n
+  constructor
+  · intro h
+    split at h
+    · simp at h
+    · split at h
+      · assumption
+      · simp at h
+  · intro h
+    have hn : ¬(n = ['s','c','a','l','a','r'] ∨ n = ['s','s','e','2'] ∨ n = ['s','s','e','4','2'] ∨
+        n = ['s','s','e','4','.','2']) := by
+      rcases h with rfl | rfl <;> decide
+    rw [if_neg hn, if_pos h]
+
+theorem parseSimdClamp_none_iff (v : List Char) :
+    parseSimdClamp v = none ↔ normalise v ∉ clampSpellings ∧ normalise v ∉ noClampSpellings := by
+  rw [← parseSimdClamp_true_iff, ← parseSimdClamp_false_iff]
+  cases parseSimdClamp v with
+  | none => simp
+  | some b => cases b <;> simp
+
+/-- The clamp can only lower the level: AVX2 is never enabled unless detected, and whatever the
+environment says, it is enabled only if it would be enabled with no environment variable. -/
+theorem avx2Enabled_only_lowers (detected : Bool) (env : Option (List Char)) :
+    avx2Enabled detected env = true → detected = true ∧ avx2Enabled detected none = true := by
+  unfold avx2Enabled
+  cases detected <;> simp [clampBelowAvx2]
+
+
 end SV.Yaml
